@@ -399,6 +399,29 @@ for path in sorted(glob.glob(os.path.join(data, "*")), key=lambda p: (os.path.ge
         loaded += 1
         for a in mod.load_one.guaranteed:
             if getattr(o, a, None) is None: fails.append(((name, a, os.path.basename(path)), "guaranteed attribute is None: " + name + "." + a))
+# FCHK files of other job types than the four the reader maps (the route word is free text), without a charges section
+import re as _re, tempfile as _tf
+_src = os.path.join(data, "water_sto3g_hf_g03.fchk")
+if os.path.exists(_src):
+    _txt = open(_src).read().splitlines(keepends=True)
+    for word in ("Force", "POpt", "Stability"):
+        cases += 1
+        l2 = list(_txt); l2[1] = word.ljust(10) + l2[1][10:]
+        keep, skip = [], 0
+        for line in l2:
+            if skip: skip -= 1; continue
+            m = _re.match(r"Mulliken Charges\s+R\s+N=\s+(\d+)", line)
+            if m: skip = (int(m.group(1)) + 4) // 5; continue
+            keep.append(line)
+        fn = os.path.join(_tf.mkdtemp(), "job.fchk")
+        open(fn, "w").write("".join(keep))
+        try:
+            o = load_one(fn)
+        except Exception:
+            continue
+        loaded += 1
+        for a in FORMAT_MODULES["fchk"].load_one.guaranteed:
+            if getattr(o, a, None) is None: fails.append((("fchk", a, "job word " + word), "guaranteed attribute is None: fchk." + a))
 # generated minimal files: a single atom / a bond-less pair without optional data, dumped and reloaded
 import numpy as np, tempfile
 from iodata import IOData, dump_one, dump_many
